@@ -1,4 +1,4 @@
-CONSTANTS Conns <- C2  Reqs <- R3  ConnOf <- CO3  N = 1  Q = 2  Calls <- K2  LateRelease = FALSE  RT = FALSE  SelfNotify = TRUE
+CONSTANTS Conns <- C2  Reqs <- R3  ConnOf <- CO3  N = 1  Q = 2  Calls <- K2  LateRelease = FALSE  RT = FALSE  SelfNotify = TRUE  Idle = FALSE  EarlyDec = FALSE
 SPECIFICATION Spec
 INVARIANTS TypeOK ReadImpliesAnswered NoLateWrite ReturnsWhenDrained Notified
 PROPERTIES ReadGetsAnswered
